@@ -3675,6 +3675,14 @@ rfbSendCopyRegion(rfbClientPtr cl,
       /* correct for scaling (if necessary) */
       rfbScaledCorrection(cl->screen, cl->scaledScreen, &x, &y, &w, &h, "copyrect");
 
+      /* flush when the next header + payload would not fit */
+      if (cl->ublen + sz_rfbFramebufferUpdateRectHeader + sz_rfbCopyRect > UPDATE_BUF_SIZE) {
+          if (!rfbSendUpdateBuf(cl)) {
+              sraRgnReleaseIterator(i);
+              return FALSE;
+          }
+      }
+
       rect.r.x = Swap16IfLE(x);
       rect.r.y = Swap16IfLE(y);
       rect.r.w = Swap16IfLE(w);
